@@ -51,6 +51,13 @@ pub enum NbfSpec {
 
 #[derive(Clone, Debug, PartialEq, Serialize, Deserialize)]
 pub struct C09Case {
+    /// the harness moves the wall clock (see `crate::clock`) and verifies the SAME presentation once
+    /// more in the same process: a credential accepted now is verified again `extra` seconds (plus
+    /// the 120 s band) after its `exp` and must then be rejected; a credential refused only for its
+    /// `nbf` is verified again that long after `nbf` (while `exp` is still an hour away) and must
+    /// then be accepted. None: no second verification.
+    #[serde(default)]
+    pub clock_extra: Option<u32>,
     /// top-level exp / nbf of `issue.claims` are replaced according to `exp` / `nbf`
     pub issue: IssueSpec,
     pub exp: ExpSpec,
@@ -86,6 +93,7 @@ fn num(v: u64, float: bool) -> Value {
 }
 
 pub fn check(case: &C09Case, st: &mut Stats) -> Verdict {
+    crate::clock::set_offset(0);
     let now = std::time::SystemTime::now().duration_since(std::time::UNIX_EPOCH).unwrap().as_secs();
     let mut spec = case.issue.clone();
     let obj = spec.claims.as_object_mut().ok_or(Failure::new("harness:bad-case", "claims not an object"))?;
@@ -244,19 +252,75 @@ pub fn check(case: &C09Case, st: &mut Stats) -> Verdict {
     let kb = case.kb.as_ref().map(|k| (k.aud.as_str(), k.nonce.as_str()));
     let out = sut::verify(&presentation, spec.fmt, spec.alg, kb);
     let show = || format!("exp={:?} nbf={:?} now={}\n  presentation: {}", spec.claims.get("exp"), spec.claims.get("nbf"), now, sut::clip(&presentation, 3000));
-    match (must_reject.is_empty(), out) {
+    let first: Verdict = match (must_reject.is_empty(), out) {
         (_, Out::Panic(p)) => Err(Failure::new(panic_sig("SDJWTVerifier::new", &p), format!("verifier panicked: {}\n  {}", p, show()))),
         (false, Out::Err(_)) => Ok(()),
         (false, Out::Ok(c)) => Err(Failure::new(
             format!("temporal:accepted:{}", must_reject.join("+")),
             format!("a credential outside its validity window was accepted ({})\n  {}\n  returned claims: {}", must_reject.join("; "), show(), c),
         )),
-        (true, Out::Err(_)) if one_direction_only => Ok(()),
+        (true, Out::Err(_)) if one_direction_only => return Ok(()),
         (true, Out::Err(e)) => Err(Failure::new(err_sig("temporal:rejected", &e), format!("a credential inside its validity window was rejected: {}\n  {}", e, show()))),
         (true, Out::Ok(c)) => {
             let expected = expected_claims(&tree, &sel.paths, spec.holder);
             if crate::exact::differs(&c, &expected) {
                 return Err(Failure::new("mismatch:verified_claims", format!("verified claims differ\n  expected: {}\n  got: {}", expected, c)));
+            }
+            Ok(())
+        }
+    };
+    first?;
+
+    // ---- the same presentation, the same process, a later wall-clock time --------------------
+    let extra = match case.clock_extra {
+        Some(e) => e as u64,
+        None => return Ok(()),
+    };
+    let instant = |k: &str| spec.claims.get(k).and_then(Value::as_f64).filter(|f| *f > 0.0 && *f < 1e11).map(|f| f.ceil() as u64);
+    let (exp_at, nbf_at) = (instant("exp"), instant("nbf"));
+    // what the second verification must say, and how far the clock has to move for it
+    let plan: Option<(u64, bool)> = if must_reject.is_empty() {
+        // accepted just now; `extra` + 180 s after exp it is expired beyond the band
+        exp_at.filter(|e| *e > now).map(|e| (e - now + 180 + extra, false))
+    } else if must_reject.len() == 1 && must_reject[0].starts_with("nbf more than") && case.kb.is_none() {
+        // refused only because of nbf; after nbf (+180 s, + extra while exp stays an hour away) it is valid
+        match (nbf_at, exp_at) {
+            (Some(n), Some(e)) if n > now && e > n + 180 + 3600 => {
+                let room = e - n - 180 - 3600;
+                Some((n - now + 180 + extra.min(room), true))
+            }
+            _ => None,
+        }
+    } else {
+        None
+    };
+    let (shift, accept) = match plan {
+        Some(p) => p,
+        None => return Ok(()),
+    };
+    let _moved = match crate::clock::shift(shift as i64) {
+        Some(g) => g,
+        None => {
+            st.label("clock:shim_absent(second verification skipped)");
+            return Ok(());
+        }
+    };
+    st.sub(1);
+    st.label(if accept { "clock:moved_past_nbf(same presentation now valid)" } else { "clock:moved_past_exp(same presentation now expired)" });
+    let again = sut::verify(&presentation, spec.fmt, spec.alg, kb);
+    let show2 = || format!("wall clock moved forward by {} s after a first verification in the same process\n  {}", shift, show());
+    match (accept, again) {
+        (_, Out::Panic(p)) => Err(Failure::new(panic_sig("SDJWTVerifier::new", &p), format!("verifier panicked: {}\n  {}", p, show2()))),
+        (false, Out::Err(_)) => Ok(()),
+        (false, Out::Ok(c)) => Err(Failure::new(
+            "temporal:accepted:expired since the first verification",
+            format!("a credential that was valid at a first verification is still accepted after its exp has passed\n  {}\n  returned claims: {}", show2(), c),
+        )),
+        (true, Out::Err(e)) => Err(Failure::new(err_sig("temporal:rejected:valid since the first verification", &e), format!("a credential refused before its nbf is still refused inside its window: {}\n  {}", e, show2()))),
+        (true, Out::Ok(c)) => {
+            let expected = expected_claims(&tree, &sel.paths, spec.holder);
+            if crate::exact::differs(&c, &expected) {
+                return Err(Failure::new("mismatch:verified_claims", format!("verified claims differ (second verification)\n  expected: {}\n  got: {}", expected, c)));
             }
             Ok(())
         }
